@@ -8,7 +8,7 @@ evaluates the contract (verdict) and the as-built reader model (drift) on every 
 """
 import gzip, io, json, os, zlib
 
-from vf import check, common, gen, observe, refcodec as rc
+from vf import check, common, gen, observe, refcodec as rc, tlc
 
 PROP = "C04"
 
@@ -176,8 +176,7 @@ def run(tier):
     chunk, start, size = [], 0, 0
     def flush(chunk, start):
         p = os.path.join(path_dir, f"cases_{start}.json")
-        with open(p, "w") as f:
-            json.dump(chunk, f)
+        tlc.write_json(p, chunk)
         r = ctx.tlc("Trace_Bytes", "Trace_Bytes.cfg", f"conformance cases {start}..{start+len(chunk)-1}", env={"TRACE_FILE": p})
         os.remove(p)
         drift = 0
